@@ -452,7 +452,21 @@ ForNoInit(inFn) ==
       sts == <<VarS("x", I(0)), loop, PV(2, Id("x"))>>
   IN IF inFn THEN <<VarS("run", FuncE("", <<>>, sts \o <<Ret(Id("x"))>>)), PV(3, CallE(Id("run"), <<>>)), ES(I(0))>>
      ELSE sts \o <<ES(I(0))>>
-DeferProgs(u) == {DeferTwice(ks) : ks \in (DeferKinds \X DeferKinds)} \cup {ForNoInit(b) : b \in BOOLEAN} \cup TryChains(0) \cup EqAssigns(0) \cup
+\* a three-part loop whose init (post) clause is an EXPRESSION: its value is discarded, once (every iteration); the
+\* loop sits in an outer loop that runs often enough for a leftover value per run to exhaust the operand stack
+ForExprClause(which, inFn) ==
+  LET e == CallE(Id("len"), <<ListE(<<Id("x")>>)>>)
+      inner == IF which = "init"
+               THEN [k |-> "for", init |-> <<ES(e)>>, hascond |-> TRUE, cond |-> Bin("<", Id("x"), I(0)), post |-> <<Postfix("x", "++")>>, body |-> <<>>]
+               ELSE [k |-> "for", init |-> <<VarS("y", I(0))>>, hascond |-> TRUE, cond |-> Bin("<", Id("y"), I(1)), post |-> <<ES(e)>>,
+                     body |-> <<Postfix("y", "++")>>]
+      outer == [k |-> "for", init |-> <<VarS("k", I(0))>>, hascond |-> TRUE, cond |-> Bin("<", Id("k"), I(40)), post |-> <<Postfix("k", "++")>>,
+                body |-> <<inner, Postfix("x", "++")>>]
+      sts == <<VarS("x", I(0)), outer, PV(2, Id("x"))>>
+  IN IF inFn THEN <<VarS("run", FuncE("", <<>>, sts \o <<Ret(Id("x"))>>)), PV(3, CallE(Id("run"), <<>>)), ES(I(0))>>
+     ELSE sts \o <<ES(I(0))>>
+DeferProgs(u) == {DeferTwice(ks) : ks \in (DeferKinds \X DeferKinds)} \cup {ForNoInit(b) : b \in BOOLEAN} \cup
+                 {ForExprClause(w, b) : w \in {"init", "post"}, b \in BOOLEAN} \cup TryChains(0) \cup EqAssigns(0) \cup
                  {DeferProg(ks, r) : ks \in (DeferKinds \X DeferKinds) \cup (DeferKinds \X DeferKinds \X DeferKinds), r \in BOOLEAN}
 
 \* only well-scoped scenarios: the innermost function of a chain of depth d can see v_1 .. v_d
